@@ -373,6 +373,11 @@ def main(chk: core.Check, replay: typing.Optional[str] = None) -> int:
     except Exception as ex:  # translator failed closed: keep going with the oracle only
         broken.append('translator data unavailable: %s' % ex)
         ids = {}
+        try:
+            d = gen_c16.fallback_data()
+        except Exception as ex2:
+            d = None
+            broken.append('fallback dump unavailable: %s' % ex2)
 
     # ---- probes of the listed findings on the implementation -------------------------------------------------------
     probe_doc = {'lookup': [{'policy': 'FIND_ALL', 'fs': [], 'pkg': ['IntegerType.j2', 'UnsignedIntegerType.j2'],
